@@ -78,6 +78,11 @@ func inject(d string, m *gm.Schema, ins []Inject) {
 			users.Col("uname").Comment = in.S
 		case "default":
 			users.Col("ufree2").Default = lit(d, in.S)
+		case "default-double-quoted":
+			// SQLite: a string default written as a double-quoted text (the inspector returns it as written)
+			if d == "sqlite" && !strings.ContainsAny(in.S, "\\") {
+				users.Col("ufree2").Default = `"` + strings.ReplaceAll(in.S, `"`, `""`) + `"`
+			}
 		case "check":
 			q := `"ufree2"`
 			if d == "mysql" {
